@@ -44,6 +44,7 @@ type Byz struct {
 	ALPSCodepoint uint16 // 0: none; 17513 or 17613
 	ALPSSettings  []byte
 	ALPSWithoutALPN bool
+	ALPSFirst       bool // application_settings is the first extension of EncryptedExtensions (before ALPN)
 
 	// TicketCount > 1: that many TLS 1.3 NewSessionTicket messages (distinct nonces) after the
 	// handshake; TicketsInOneRecord: all of them in a single record (RFC 8446 5.1 allows several
